@@ -1,0 +1,238 @@
+//go:build verif
+
+// Contracts for package linkedlog (comment-only; read by /verif/vcgo, build tag verif).
+package linkedlog
+
+// ---- Bitmap ----
+
+//@ spec func bit(b Bitmap, i int) bool = (b & (Bitmap(1) << uint(i))) != 0
+
+//@ func (Bitmap) Get
+//@   mode bv
+//@   panics index < 0 || index >= 8
+//@   ensures result == bit(b, index)
+
+//@ func (*Bitmap) Set
+//@   mode bv
+//@   panics index < 0 || index >= 8
+//@   modifies b
+//@   ensures bit(*b, index) == value
+//@   ensures forall i int :: 0 <= i && i < 8 ==> (i != index ==> bit(*b, i) == bit(old(*b), i))
+
+//@ func (Bitmap) IsEmpty
+//@   mode bv
+//@   ensures result == (forall i int :: 0 <= i && i < 8 ==> !bit(b, i))
+
+//@ func NewBitmapFromValues
+//@   mode bv
+//@   panics len(values) > 8
+//@   ensures forall i int :: 0 <= i && i < 8 ==> bit(result, i) == (i < len(values) && values[i])
+//@   loop 0 invariant 0 <= rangeidx0 && rangeidx0 <= len(values)
+//@   loop 0 invariant forall i int :: 0 <= i && i < 8 ==> bit(bm, i) == (i < rangeidx0 && values[i])
+
+// ---- flag accessors of OffsetAndSizeAndSlot (bit 0 = hasMeta, 1 = isSuccess, 2 = isVote) ----
+
+//@ func (*OffsetAndSizeAndSlot) HasMeta
+//@   mode bv
+//@   ensures result == bit(oas.Flags, 0)
+
+//@ func (*OffsetAndSizeAndSlot) IsSuccess
+//@   mode bv
+//@   ensures result == bit(oas.Flags, 1)
+
+//@ func (*OffsetAndSizeAndSlot) IsVote
+//@   mode bv
+//@   ensures result == bit(oas.Flags, 2)
+
+//@ func (*OffsetAndSizeAndSlot) SetHasMeta
+//@   mode bv
+//@   modifies oas
+//@   ensures bit(oas.Flags, 0) == hasMeta
+//@   ensures forall i int :: 1 <= i && i < 8 ==> bit(oas.Flags, i) == bit(old(oas.Flags), i)
+//@   ensures oas.Offset == old(oas.Offset) && oas.Size == old(oas.Size) && oas.Slot == old(oas.Slot)
+
+//@ func (*OffsetAndSizeAndSlot) SetIsSuccess
+//@   mode bv
+//@   modifies oas
+//@   ensures bit(oas.Flags, 1) == isSuccess
+//@   ensures forall i int :: 0 <= i && i < 8 ==> (i != 1 ==> bit(oas.Flags, i) == bit(old(oas.Flags), i))
+//@   ensures oas.Offset == old(oas.Offset) && oas.Size == old(oas.Size) && oas.Slot == old(oas.Slot)
+
+//@ func (*OffsetAndSizeAndSlot) SetIsVote
+//@   mode bv
+//@   modifies oas
+//@   ensures bit(oas.Flags, 2) == isVote
+//@   ensures forall i int :: 0 <= i && i < 8 ==> (i != 2 ==> bit(oas.Flags, i) == bit(old(oas.Flags), i))
+//@   ensures oas.Offset == old(oas.Offset) && oas.Size == old(oas.Size) && oas.Slot == old(oas.Slot)
+
+// ---- uvarint theory (encoding/binary): uvl(n) = number of bytes, uvb(n, k) = k-th byte of the encoding of n ----
+
+//@ spec func uvl(n uint64) int = ite(n < 128, int(1), ite(n < 16384, int(2), ite(n < 2097152, int(3), ite(n < 268435456, int(4), ite(n < 34359738368, int(5), ite(n < 4398046511104, int(6), ite(n < 562949953421312, int(7), ite(n < 72057594037927936, int(8), ite(n < 9223372036854775808, int(9), int(10))))))))))
+//@ spec func uvb(n uint64, k int) byte = ite(k+1 == uvl(n), byte(n >> (7*uint(k))), byte((n >> (7*uint(k))) % 128 + 128))
+//@ spec func uvAt(b []byte, o int, n uint64) bool = forall k int :: 0 <= k && k < 10 ==> (k < uvl(n) ==> b[o+k] == uvb(n, k))
+
+//@ func sizeOfUvarint
+//@   mode int
+//@   pure
+//@   ensures result == uvl(n)
+
+//@ func encodeUvarint
+//@   mode int
+//@   ensures len(result) == uvl(n) && fresh(result)
+//@   ensures uvAt(result, 0, n)
+
+// ---- entry codec: uvarint(Offset) ++ uvarint(Size) ++ uvarint(Slot) ++ byte(Flags) ----
+
+//@ spec func entryLen(off uint64, size uint64, slot uint64) int = uvl(off) + uvl(size) + uvl(slot) + 1
+//@ spec func entryAt(b []byte, o int, off uint64, size uint64, slot uint64, flags Bitmap) bool = uvAt(b, o, off) && uvAt(b, o+uvl(off), size) && uvAt(b, o+uvl(off)+uvl(size), slot) && b[o+uvl(off)+uvl(size)+uvl(slot)] == byte(flags)
+
+//@ func (OffsetAndSizeAndSlot) Bytes
+//@   mode int
+//@   ensures len(result) == entryLen(oas.Offset, oas.Size, oas.Slot) && fresh(result)
+//@   ensures entryAt(result, 0, oas.Offset, oas.Size, oas.Slot, oas.Flags)
+
+// Decoding side. binary.Uvarint also accepts non-canonical encodings (e.g. 80 00 for 0), so the decoder is specified by
+// what it reads off the bytes: ulenAt(b, p) = length of the uvarint that starts at p (up to the first byte < 128),
+// uvVal(b, p, n) = value of its n 7-bit groups, uvValAt(b, p) = uvVal(b, p, ulenAt(b, p)) made opaque (definition only
+// through unfold, keeps the callers' formulas small), fbFrom(b, p, k) = start of the k-th field of the entry at p.
+//@ spec func ulenAt(b []byte, p int) int = ite(b[p] < 128, int(1), ite(b[p+1] < 128, int(2), ite(b[p+2] < 128, int(3), ite(b[p+3] < 128, int(4), ite(b[p+4] < 128, int(5), ite(b[p+5] < 128, int(6), ite(b[p+6] < 128, int(7), ite(b[p+7] < 128, int(8), ite(b[p+8] < 128, int(9), int(10))))))))))
+//@ spec func uvVal(b []byte, p int, n int) uint64 = uint64(b[p] % 128) + ite(1 < n, uint64(b[p+1] % 128) * 128, uint64(0)) + ite(2 < n, uint64(b[p+2] % 128) * 16384, uint64(0)) + ite(3 < n, uint64(b[p+3] % 128) * 2097152, uint64(0)) + ite(4 < n, uint64(b[p+4] % 128) * 268435456, uint64(0)) + ite(5 < n, uint64(b[p+5] % 128) * 34359738368, uint64(0)) + ite(6 < n, uint64(b[p+6] % 128) * 4398046511104, uint64(0)) + ite(7 < n, uint64(b[p+7] % 128) * 562949953421312, uint64(0)) + ite(8 < n, uint64(b[p+8] % 128) * 72057594037927936, uint64(0)) + ite(9 < n, uint64(b[p+9] % 128) * 9223372036854775808, uint64(0))
+//@ spec func uvValAt(b []byte, p int) uint64 = ite(false, uvValAt(b, p), uvVal(b, p, ulenAt(b, p)))
+// uvOk / entryOk: uvAt / entryAt (canonical encoding, what Bytes() writes) made opaque in the same way
+//@ spec func uvOk(b []byte, o int, n uint64) bool = ite(false, uvOk(b, o, n), uvAt(b, o, n))
+//@ spec func entryOk(b []byte, o int, off uint64, size uint64, slot uint64, flags Bitmap) bool = uvOk(b, o, off) && uvOk(b, o+uvl(off), size) && uvOk(b, o+uvl(off)+uvl(size), slot) && b[o+uvl(off)+uvl(size)+uvl(slot)] == byte(flags)
+//@ spec func fbFrom(b []byte, p int, k int) int = ite(k <= 0, p, ite(k == 1, p + ulenAt(b, p), ite(k == 2, p + ulenAt(b, p) + ulenAt(b, p + ulenAt(b, p)), p + ulenAt(b, p) + ulenAt(b, p + ulenAt(b, p)) + ulenAt(b, p + ulenAt(b, p) + ulenAt(b, p + ulenAt(b, p))))))
+// entryDec: the fields are what the decoder reads off the entry that starts at o
+//@ spec func entryDec(b []byte, o int, off uint64, size uint64, slot uint64, flags Bitmap) bool = off == uvValAt(b, o) && size == uvValAt(b, fbFrom(b, o, 1)) && slot == uvValAt(b, fbFrom(b, o, 2)) && byte(flags) == b[fbFrom(b, o, 3)]
+
+//@ func (*OffsetAndSizeAndSlot) FromBytes
+//@   mode int
+//@   modifies oas
+//@   ensures result == nil ==> fbFrom(buf, 0, 3) + 1 <= len(buf) && len(buf) <= 30
+//@   # = entryDec(buf, 0, oas.Offset, oas.Size, oas.Slot, oas.Flags), one field per clause (cheaper for the solvers)
+//@   ensures result == nil ==> oas.Offset == uvValAt(buf, 0)
+//@   ensures result == nil ==> oas.Size == uvValAt(buf, fbFrom(buf, 0, 1))
+//@   ensures result == nil ==> oas.Slot == uvValAt(buf, fbFrom(buf, 0, 2))
+//@   ensures result == nil ==> byte(oas.Flags) == buf[fbFrom(buf, 0, 3)]
+//@   # (round trip: with entryDec it follows from the per-uvarint fact "uvAt(b, o, P) ==> ulenAt(b, o) == uvl(P) && uvValAt(b, o) == P",
+//@   # which is machine-checked in (*uvarintReader).ReadUvarint; it is not restated here: the solvers cannot do that
+//@   # arithmetic in mode int, and in mode bv every obligation of this function needs > 45 s)
+//@   use unfold(uvValAt(buf, 0)) && unfold(uvValAt(buf, fbFrom(buf, 0, 1))) && unfold(uvValAt(buf, fbFrom(buf, 0, 2)))
+
+// ---- byte reader used by the slice decoder ----
+
+//@ func (*uvarintReader) ReadUvarint
+//@   mode bv
+//@   requires 0 <= r.pos
+//@   modifies r
+//@   ensures r.buf == old(r.buf) && r.pos >= old(r.pos)
+//@   ensures (result1 != nil && isErr(result1, io.EOF)) == (old(r.pos) >= len(r.buf))
+//@   ensures result1 == nil ==> r.pos == old(r.pos) + ulenAt(r.buf, old(r.pos)) && r.pos <= len(r.buf)
+//@   ensures result1 == nil ==> result0 == uvValAt(r.buf, old(r.pos))
+//@   # round trip: if the canonical encoding of P sits at pos, a successful read yields P and advances by uvl(P)
+//@   ensures result1 == nil ==> forall P uint64 :: uvOk(r.buf, old(r.pos), P) ==> result0 == P && r.pos == old(r.pos) + uvl(P)
+//@   ensures result1 != nil ==> r.pos == old(r.pos) && result0 == 0
+//@   use forall o int :: unfold(uvValAt(r.buf, o))
+//@   use forall o int :: forall n uint64 :: unfold(uvOk(r.buf, o, n))
+
+//@ func (*uvarintReader) ReadByte
+//@   mode bv
+//@   requires 0 <= r.pos
+//@   modifies r
+//@   ensures r.buf == old(r.buf)
+//@   ensures (result1 == nil) == (old(r.pos) < len(r.buf))
+//@   ensures result1 != nil ==> result1 == io.EOF && r.pos == old(r.pos) && result0 == 0
+//@   ensures result1 == nil ==> r.pos == old(r.pos) + 1 && result0 == r.buf[old(r.pos)]
+
+// Field boundaries of a buffer parsed as a sequence of entries (uvarint, uvarint, uvarint, byte):
+// fb(b, j) is the start of the j-th field; entry i starts at fb(b, 4*i).
+//@ spec func fb(b []byte, j int) int = ite(j <= 0, int(0), fb(b, j-1) + ite((j-1) % 4 == 3, int(1), ulenAt(b, fb(b, j-1))))
+
+//@ func (*OffsetAndSizeAndSlot) FromReader
+//@   mode int
+//@   requires r != nil && 0 <= r.(*uvarintReader).pos
+//@   modifies oas, r.(*uvarintReader)
+//@   ensures r.(*uvarintReader).buf == old(r.(*uvarintReader).buf) && r.(*uvarintReader).pos >= old(r.(*uvarintReader).pos)
+//@   ensures old(r.(*uvarintReader).pos) <= len(r.(*uvarintReader).buf) ==> r.(*uvarintReader).pos <= len(r.(*uvarintReader).buf)
+//@   ensures result == nil ==> r.(*uvarintReader).pos == fbFrom(r.(*uvarintReader).buf, old(r.(*uvarintReader).pos), 3) + 1 && r.(*uvarintReader).pos <= len(r.(*uvarintReader).buf)
+//@   ensures result == nil ==> entryDec(r.(*uvarintReader).buf, old(r.(*uvarintReader).pos), oas.Offset, oas.Size, oas.Slot, oas.Flags)
+//@   # round trip: an entry written by Bytes() (canonical encoding) at pos decodes to itself
+//@   ensures result == nil ==> forall a, b, c uint64 :: forall f Bitmap :: entryOk(r.(*uvarintReader).buf, old(r.(*uvarintReader).pos), a, b, c, f) ==> oas.Offset == a && oas.Size == b && oas.Slot == c && oas.Flags == f && r.(*uvarintReader).pos == old(r.(*uvarintReader).pos) + entryLen(a, b, c)
+//@   # io.EOF is reported exactly when the input ends at one of the four field boundaries; only the first one is a clean end
+//@   ensures result != nil && isErr(result, io.EOF) ==> r.(*uvarintReader).pos >= len(r.(*uvarintReader).buf)
+//@   ensures result != nil ==> r.(*uvarintReader).pos == old(r.(*uvarintReader).pos) || r.(*uvarintReader).pos == fbFrom(r.(*uvarintReader).buf, old(r.(*uvarintReader).pos), 1) || r.(*uvarintReader).pos == fbFrom(r.(*uvarintReader).buf, old(r.(*uvarintReader).pos), 2) || r.(*uvarintReader).pos == fbFrom(r.(*uvarintReader).buf, old(r.(*uvarintReader).pos), 3)
+//@   ensures old(r.(*uvarintReader).pos) >= len(r.(*uvarintReader).buf) ==> result != nil && isErr(result, io.EOF) && r.(*uvarintReader).pos == old(r.(*uvarintReader).pos)
+
+//@ func OffsetAndSizeAndSlotSliceFromBytes
+//@   mode int
+//@   ensures result1 == nil ==> fresh(result0)
+//@   ensures result1 != nil ==> result0 == nil
+//@   # the list is a function of the input: entry i is what the decoder reads off the four fields that start at fb(buf, 4*i) ...
+//@   ensures result1 == nil ==> forall i int :: 0 <= i && i < len(result0) ==> result0[i].Offset == uvValAt(buf, fb(buf, 4*i)) && result0[i].Size == uvValAt(buf, fb(buf, 4*i+1)) && result0[i].Slot == uvValAt(buf, fb(buf, 4*i+2)) && byte(result0[i].Flags) == buf[fb(buf, 4*i+3)]
+//@   # round trip: wherever the input holds an entry written by Bytes() at an entry boundary, that entry is returned
+//@   ensures result1 == nil ==> forall i int :: forall a, b, c uint64 :: forall f Bitmap :: 0 <= i && i < len(result0) && entryOk(buf, fb(buf, 4*i), a, b, c, f) ==> result0[i].Offset == a && result0[i].Size == b && result0[i].Slot == c && result0[i].Flags == f && fb(buf, 4*i+4) == fb(buf, 4*i) + entryLen(a, b, c)
+//@   # ... and it is complete: the entries tile the whole input (C06 obligation 1, C13 T3)
+//@   ensures result1 == nil ==> fb(buf, 4*len(result0)) == len(buf)
+//@   use unfold(fb(buf, 0))
+//@   loop 0 invariant r != nil && r.buf == buf && 0 <= r.pos && r.pos <= len(buf) && fresh(oass)
+//@   loop 0 invariant r.pos == fb(buf, 4*len(oass))
+//@   loop 0 invariant forall i int :: 0 <= i && i < len(oass) ==> oass[i].Offset == uvValAt(buf, fb(buf, 4*i)) && oass[i].Size == uvValAt(buf, fb(buf, 4*i+1)) && oass[i].Slot == uvValAt(buf, fb(buf, 4*i+2)) && byte(oass[i].Flags) == buf[fb(buf, 4*i+3)]
+//@   loop 0 invariant forall i int :: forall a, b, c uint64 :: forall f Bitmap :: 0 <= i && i < len(oass) && entryOk(buf, fb(buf, 4*i), a, b, c, f) ==> oass[i].Offset == a && oass[i].Size == b && oass[i].Slot == c && oass[i].Flags == f && fb(buf, 4*i+4) == fb(buf, 4*i) + entryLen(a, b, c)
+//@   loop 0 use unfold(fb(buf, 4*len(oass)+1)) && unfold(fb(buf, 4*len(oass)+2)) && unfold(fb(buf, 4*len(oass)+3)) && unfold(fb(buf, 4*len(oass)+4))
+//@   loop 0 decreases len(buf) - r.pos
+
+// ---- the log file ----
+
+//@ func (*LinkedLog) write
+//@   mode int
+//@   requires s.buffer != nil && held(s.writeMu) == 0
+//@   requires len(b) <= 4294967295
+//@   modifies s, written(s.buffer)
+//@   ensures held(s.writeMu) == 0
+//@   ensures s.file == old(s.file) && s.buffer == old(s.buffer)
+//@   ensures result2 == nil ==> result0 == old(s.offset) && int(result1) == len(b)
+//@   ensures result2 == nil ==> s.offset == old(s.offset) + uint64(len(b)) && written(s.buffer) == old(written(s.buffer)) + len(b)
+//@   ensures result2 != nil ==> s.offset == old(s.offset) && result0 == 0 && result1 == 0
+
+// ghost file content behind s.file: fsize(s.file), fbyte(s.file, k)
+//@ spec func uvAtF(s *LinkedLog, o int, n uint64) bool = forall k int :: 0 <= k && k < 10 ==> (k < uvl(n) ==> fbyte(s.file, o+k) == uvb(n, k))
+//@ spec func le48f(s *LinkedLog, o int) uint64 = uint64(fbyte(s.file, o)) + uint64(fbyte(s.file, o+1))*256 + uint64(fbyte(s.file, o+2))*65536 + uint64(fbyte(s.file, o+3))*16777216 + uint64(fbyte(s.file, o+4))*4294967296 + uint64(fbyte(s.file, o+5))*1099511627776
+//@ spec func le24f(s *LinkedLog, o int) uint64 = uint64(fbyte(s.file, o)) + uint64(fbyte(s.file, o+1))*256 + uint64(fbyte(s.file, o+2))*65536
+
+//@ func decompressIndexes
+//@   mode int
+//@   ensures result1 != nil ==> result0 == nil
+//@   ensures result1 == nil ==> fresh(result0)
+
+//@ func (*LinkedLog) ReadWithSize
+//@   mode int
+//@   requires s.file != nil
+//@   ensures result2 == nil ==> 10 <= size && size <= 268435456 && 0 <= int(offset) + uvl(size) && int(offset) + int(size) <= fsize(s.file)
+//@   ensures result2 == nil ==> result1.Offset == le48f(s, int(offset) + int(size) - 9) && result1.Size == le24f(s, int(offset) + int(size) - 3)
+//@   ensures result2 != nil ==> result0 == nil && result1.Offset == 0 && result1.Size == 0
+//@   # C06 (2), record layout. Put writes R = uvarint(P) ++ payload of P bytes and hands out len(R) = uvl(P)+P as the size of
+//@   # the record; the compressed entries are R[uvl(P) : len(R)-9]. What the reader hands to the decompressor is the stored
+//@   # payload only if it skips exactly the width of the stored uvarint(P). (zstd is opaque to the verifier, hence the
+//@   # obligation is stated on the window start `prefixLen` rather than on the decoded list.)
+//@   ensures forall P uint64 :: result2 == nil && uvl(P) + int(P) == int(size) ==> int(prefixLen) == uvl(P)
+
+//@ func (*LinkedLog) Read
+//@   mode int
+//@   requires s.file != nil
+//@   ensures result2 != nil ==> result0 == nil && result1.Offset == 0 && result1.Size == 0
+//@   # intended (C06 (2)): the record at offset is uvarint(P) ++ payload of P bytes whose last 9 bytes are the pointer to the
+//@   # previous record of the same key (Read hands uvl(P)+P to ReadWithSize).
+//@   ensures result2 == nil ==> forall P uint64 :: uvAtF(s, int(offset), P) ==> result1.Offset == le48f(s, int(offset) + uvl(P) + int(P) - 9) && result1.Size == le24f(s, int(offset) + uvl(P) + int(P) - 3)
+
+// The result is zstd(concat_i Bytes(*indexes[i])); zstd is opaque (tooling.CompressZstd is trusted, results arbitrary), so
+// only the safety part, the caller obligation (no nil entry) and the length of the buffer handed to zstd are stated.
+// offAt(l, i) = total encoded length of the first i entries.
+//@ spec func offAt(l []*OffsetAndSizeAndSlot, i int) int = ite(i <= 0, int(0), offAt(l, i-1) + entryLen(l[i-1].Offset, l[i-1].Size, l[i-1].Slot))
+
+//@ func createIndexesPayload
+//@   mode int
+//@   requires forall i int :: 0 <= i && i < len(indexes) ==> indexes[i] != nil
+//@   use unfold(offAt(indexes, 0))
+//@   loop 0 invariant 0 <= rangeidx0 && rangeidx0 <= len(indexes)
+//@   loop 0 invariant len(buf) == offAt(indexes, rangeidx0)
+//@   loop 0 use unfold(offAt(indexes, rangeidx0+1))
